@@ -367,6 +367,7 @@ func runC08(r *Run) {
 		zero[c.Name] = zeroValue(c.Type)
 	}
 	c08API(r, n/16)
+	c08InTransaction(r, n/8)
 	for i := 0; i < n; i++ {
 		cfg := genIdxConfig(r.Rng)
 		// rows, unique under the schema indexes of cfg
@@ -577,5 +578,53 @@ func runC08(r *Run) {
 				r.Violation("rowsByCondition", cs, gerr+gs, merr+ms, false, "model and implementation disagree on RowsByCondition", "")
 			}
 		}
+	}
+}
+
+// c08InTransaction: selection inside a transaction: the rows an operation works on are those whose CURRENT
+// version (as the earlier operations of the transaction left it) satisfies the conditions. An update moves
+// rows out of (or into) the reach of a condition; the next operation of the same transaction selects with
+// that condition. Compared with the RFC reference (the history machinery of C03).
+func c08InTransaction(r *Run, n int) {
+	for h := 0; h < n; h++ {
+		ts := genTxnSchema(r.Rng, false)
+		nT, ti := 5, 0
+		c03History(r, 100000+h, ts, func(sh *shadow) *TxnJ {
+			if ti >= nT {
+				return nil
+			}
+			ti++
+			txn := genTxn(r.Rng, ts, sh, 1+r.Rng.Intn(2))
+			if ti < 3 {
+				return &txn // rows first
+			}
+			t := ts.Spec.Tables[r.Rng.Intn(len(ts.Spec.Tables))]
+			us := sh.uuids(t.Name)
+			if len(us) == 0 {
+				return &txn
+			}
+			src := sh.rows[t.Name][us[r.Rng.Intn(len(us))]]
+			col := []string{"n", "name"}[r.Rng.Intn(2)]
+			old := nativeToOvsValue(src[col])
+			var nv *Value
+			if col == "n" {
+				nv = VA(AI(int64(50 + r.Rng.Intn(50))))
+			} else {
+				nv = VA(AS(fmt.Sprintf("moved%d", r.Rng.Intn(1000))))
+			}
+			where := []WCondJ{{Col: col, Fn: "==", Val: old}}
+			follow := OperationJ{Op: []string{"select", "delete", "mutate", "select"}[r.Rng.Intn(4)], Table: t.Name}
+			if follow.Op == "mutate" {
+				follow.Mutations = []MutationJ{{Col: "n", Mutator: "+=", Val: VA(AI(1000))}}
+			}
+			// the old value no longer selects the moved rows; the new value does
+			follow.Where = where
+			if r.Rng.Intn(2) == 0 {
+				follow.Where = []WCondJ{{Col: col, Fn: "==", Val: nv}}
+			}
+			txn.Ops = append(txn.Ops, OperationJ{Op: "update", Table: t.Name, Where: where, Row: Row{col: nv}}, follow)
+			r.Count("in-transaction:" + follow.Op)
+			return &txn
+		})
 	}
 }
